@@ -51,11 +51,15 @@ DERIVED = {
 }
 
 
+# element text the parser reads with Element.text: an empty element and an absent value are the same document
+EMPTY_IS_ABSENT = {("Limit", "value_raw")}
+
+
 # ---------------------------------------------------------------------------------------
 # base databases
 
-def kitchen_sink_docs() -> List[str]:
-    """one generated database using the element kinds of the ODX emitter (odxgen)"""
+def kitchen_sink_docs(c1: str = "DLC1", c2: str = "DLC2") -> List[str]:
+    """one generated database using the element kinds of the ODX emitter (odxgen); c1, c2: names of the two containers"""
     css = hl.subset_doc()
     cs = hl.CS_DOC
     esd = og.Layer("ECU-SHARED-DATA", "ESD", "ESD")
@@ -66,7 +70,7 @@ def kitchen_sink_docs() -> List[str]:
     bv = og.Layer("BASE-VARIANT", "BV", "BV")
     bv.funct_classes.append(og.tag("FUNCT-CLASS", og.sn("fc", "functional class"), ID="BV.FC"))
     lin = og.compu_method("LINEAR", [og.compu_scale(lower=og.limit("LOWER-LIMIT", 0, "CLOSED"),
-                                                    upper=og.limit("UPPER-LIMIT", 200, "CLOSED"), num=[1, 0.5], den=[2])])
+                                                    upper=og.limit("UPPER-LIMIT", 200, "CLOSED"), num=[1, 0.0009765625], den=[1234567])])
     sl = og.compu_method("SCALE-LINEAR", [
         og.compu_scale(lower=og.limit("LOWER-LIMIT", 0, "CLOSED"), upper=og.limit("UPPER-LIMIT", 10, "OPEN"), num=[0, 1]),
         og.compu_scale(lower=og.limit("LOWER-LIMIT", 10, "CLOSED"), upper=og.limit("UPPER-LIMIT", 20, "CLOSED"), num=[-10, 2])])
@@ -151,15 +155,15 @@ def kitchen_sink_docs() -> List[str]:
         og.service("BV.DC.mux", "muxed", "BV.RQ.mux"),
         og.single_ecu_job("BV.JOB", "job1"),
     ]
-    bv.import_refs.append(og.ref("IMPORT-REF", "ESD", "DLC2", "CONTAINER"))
+    bv.import_refs.append(og.ref("IMPORT-REF", "ESD", c2, "CONTAINER"))
     bv.comparam_refs.append(hl.comparam_ref(["cpx", ""], 2))
-    bv.parent_refs.append(og.parent_ref("P.id", "PROTOCOL", "DLC1"))
+    bv.parent_refs.append(og.parent_ref("P.id", "PROTOCOL", c1))
     ev = og.Layer("ECU-VARIANT", "EV", "EV")
-    ev.parent_refs.append(og.parent_ref("BV", "BASE-VARIANT", "DLC1", ni_diag_comms=["tab"], ni_dops=["bcd"], ni_tables=["table1"],
+    ev.parent_refs.append(og.parent_ref("BV", "BASE-VARIANT", c1, ni_diag_comms=["tab"], ni_dops=["bcd"], ni_tables=["table1"],
                                         ni_gnrs=["GNR"]))
     ev.patterns = og.ecu_variant_patterns([[og.matching_parameter("5", "read", out_snref="did")]])
     ev.dops.append(og.dop("EV.u8", "ev_u8", og.dct_standard("A_UINT32", 8)))
-    return [cs, css, og.container("DLC1", "DLC1", [prot, bv, ev]), og.container("DLC2", "DLC2", [esd])]
+    return [cs, css, og.container(c1, c1, [prot, bv, ev]), og.container(c2, c2, [esd])]
 
 
 def behaviour(db: Any) -> str:
@@ -277,6 +281,8 @@ def _load_base(base: str) -> Any:
     from odxtools.loadfile import load_pdx_file
     if base == "kitchen":
         return og.load(kitchen_sink_docs())
+    if base == "kitchen_renamed":          # the same layers in containers of other names
+        return og.load(kitchen_sink_docs("OTHER1", "OTHER2"))
     return load_pdx_file(str(REPO / "examples" / base))
 
 
@@ -323,6 +329,8 @@ def process_sessions(args: Tuple[List[Dict[str, Any]], int]) -> Dict[str, Any]:
                 o, f = pdx.resolve_path(db, job["site"]["path"])
                 hint = pdx._hints(type(o)).get(f)
                 ok, nv = pdx.new_value(type(o), f, getattr(o, f), hint)
+                if job["site"].get("kind") == "empty":
+                    nv = ""
                 have("h1", db)
                 setattr(o, f, nv)
                 st["perturbations"] += 1
@@ -361,7 +369,11 @@ def enumerate_sites(bases: List[str]) -> List[Dict[str, Any]]:
         for (path, o, f, old, _hint) in pdx.sites(db):
             if (type(o).__name__, f) in DERIVED:
                 continue
-            out.append({"base": b, "site": {"path": path, "class": type(o).__name__, "field": f, "was_none": old is None}})
+            out.append({"base": b, "site": {"path": path, "class": type(o).__name__, "field": f, "was_none": old is None, "kind": "value"}})
+            t, opt = pdx._strip_optional(_hint)
+            if opt and (t is str) and old != "" and type(o).__name__ != "Description" and (type(o).__name__, f) not in EMPTY_IS_ABSENT:
+                # an empty string is a value, not an absent attribute
+                out.append({"base": b, "site": {"path": path, "class": type(o).__name__, "field": f, "was_none": old is None, "kind": "empty"}})
     return out
 
 
@@ -432,7 +444,8 @@ def check(tier: str, replay: Optional[str] = None) -> int:
     # ---- part B
     bases = ["kitchen", "somersault.pdx"] + (["somersault_modified.pdx"] if tier == "thorough" else [])
     jobs: List[Dict[str, Any]] = [{"base": b} for b in bases]
-    jobs += [{"base": "kitchen", "second_base": "somersault.pdx"}, {"base": "somersault.pdx", "second_base": "kitchen"}]
+    jobs += [{"base": "kitchen", "second_base": "somersault.pdx"}, {"base": "somersault.pdx", "second_base": "kitchen"},
+             {"base": "kitchen", "second_base": "kitchen_renamed"}, {"base": "kitchen_renamed", "second_base": "kitchen"}]
     site_jobs = enumerate_sites(bases)
     total_sites = len(site_jobs)
     if case and case.get("machine") == "PdxTrace":
